@@ -162,6 +162,7 @@ type bsys struct {
 	// last event
 	pre      light
 	preDisk  map[string]gpos
+	preBad   map[int64]bool // sequences in (queue ack, appended] that were already unreadable before the event
 	ev       string
 	ret      int64
 	same     bool
@@ -206,6 +207,24 @@ func (s *bsys) observe() light {
 		l.G[n] = gpos{C: g.ConsumedSeq(), K: g.AcknowledgedSeq()}
 	}
 	return l
+}
+
+// read returns the bytes of sequence q or an error if it is not readable with the bytes it was appended with.
+func (s *bsys) read(q int64) (got []byte, err error) {
+	defer func() {
+		if r := recover(); r != nil {
+			err = fmt.Errorf("Get panics: %v", r)
+		}
+	}()
+	b, err := s.fq.Queue().Get(q)
+	if err != nil {
+		return nil, fmt.Errorf("not readable: %v", err)
+	}
+	got = append([]byte(nil), b...)
+	if want := payload(s.cfg.Sizes, int(q)); !bytes.Equal(got, want) {
+		return got, fmt.Errorf("reads %s, appended as %s", describeBytes(got), describeBytes(want))
+	}
+	return got, nil
 }
 
 func (s *bsys) liveNames() []string {
@@ -272,6 +291,12 @@ func (s *bsys) Apply(ev string) (err error) {
 		return fmt.Errorf("event %q on a dead system (%s)", ev, s.dead)
 	}
 	s.pre = s.observe()
+	s.preBad = map[int64]bool{}
+	for q := s.pre.Q + 1; q <= s.pre.A; q++ {
+		if _, err := s.read(q); err != nil {
+			s.preBad[q] = true
+		}
+	}
 	s.preDisk = map[string]gpos{}
 	for n, p := range s.disk {
 		s.preDisk[n] = p
@@ -461,7 +486,7 @@ func (s *bsys) Invariant(prevCanon, ev string) []vxstate.Finding {
 	if post.Q < pre.Q {
 		add("queue-ack-backward", site, ctx)
 	}
-	if post.Q > post.A {
+	if post.Q > post.A && !(pre.Q > pre.A) {
 		add("queue-ack-beyond-appended", site, ctx)
 	}
 	if post.Q != pre.Q && kind != "qack" {
@@ -509,29 +534,16 @@ func (s *bsys) Invariant(prevCanon, ev string) []vxstate.Finding {
 
 	// ---- every message above the queue ack is readable with its original bytes
 	for q := post.Q + 1; q <= post.A; q++ {
-		var got []byte
-		var err error
-		func() {
-			defer func() {
-				if r := recover(); r != nil {
-					err = fmt.Errorf("panic: %v", r)
-				}
-			}()
-			var b []byte
-			b, err = s.fq.Queue().Get(q)
-			if err == nil {
-				got = append([]byte(nil), b...)
-			}
-		}()
-		want := payload(s.cfg.Sizes, int(q))
-		clause := "readable"
-		if kind == "gc" {
-			clause = "gc-removed-unacked"
+		if s.preBad[q] {
+			continue // reported when it became unreadable
 		}
+		_, err := s.read(q)
 		if err != nil {
-			add(clause, site, fmt.Sprintf("sequence %d in (queue ack %d, appended %d] is not readable: %v | %s", q, post.Q, post.A, err, ctx))
-		} else if !bytes.Equal(got, want) {
-			add(clause, site, fmt.Sprintf("sequence %d reads %s, appended as %s | %s", q, describeBytes(got), describeBytes(want), ctx))
+			clause := "readable"
+			if kind == "gc" {
+				clause = "gc-removed-unacked"
+			}
+			add(clause, site, fmt.Sprintf("sequence %d in (queue ack %d, appended %d]: %v | %s", q, post.Q, post.A, err, ctx))
 		}
 	}
 
